@@ -66,7 +66,12 @@ func c14Worker(c *core.Collector, x *Ctx) {
 		r := core.NewRand(c.Seed, "c14", uint64(ji))
 		id := core.Pick(r, []uint16{0x0801, 0x0704, 0x0200})
 		first := r.U16()
-		for variant := 0; variant < 5; variant++ {
+		v19 := ji%2 == 1
+		hookFrame := func(_ bool, id, serial uint16, frag bool, sum, no uint16, body []byte) []byte {
+			return hookFrameV(v19, id, serial, frag, sum, no, body)
+		}
+		hb := func(serial uint16) []byte { return hookFrameV(v19, 0x0002, serial, false, 0, 0, nil) }
+		for variant := 0; variant < 6; variant++ {
 			bodies := c05Bodies(r, j.N, variant&1)
 			b := &builder{}
 			var missing []int
@@ -127,6 +132,14 @@ func c14Worker(c *core.Collector, x *Ctx) {
 				age(b, 3100) // 59.0 s
 				for _, k := range missing {
 					feed(b, hookFrame(false, id, uint16(2000+k), true, uint16(j.N), uint16(k), bodies[k-1]))
+				}
+			case 5: // expiry, then a NEW transfer with the same ID and other bodies: exactly the new body is delivered
+				age(b, 55500)
+				feed(b, hb(6))
+				nb := c05Bodies(r, j.N, 1)
+				feed(b, hookFrame(false, id, first+7, true, uint16(j.N), 1, nb[0]))
+				for k := j.N; k >= 2; k-- {
+					feed(b, hookFrame(false, id, uint16(4000+k), true, uint16(j.N), uint16(k), nb[k-1]))
 				}
 			case 3: // 61 s: the transfer is discarded; the remaining packets arrive afterwards and nothing is delivered
 				age(b, 55500) // 61.0 s since packet 1
